@@ -26,3 +26,30 @@ def _rid_dashed_ga(info, sig):
     main = "-" in x["short"] and x["type"] == "ga"
     bp = bool(x.get("bp")) and "-" in x["bp_short"] and x["bp_type"] == "ga"
     return main or bp
+
+
+@signature("treeinfo_dashed_top_keyed_by_id")
+def _ti_dashed_by_id(info, sig):
+    """C04 F-04b: a top-level variant with a dashed UID was added with the default add(v), i.e. keyed by its id."""
+    if info.get("kind") != "tree":
+        return False
+    o = info["case"]["obj"]
+    if not (o["keyby"] == "id" and any(t in ("S-o", "S-T") for t in o["tops"])):
+        return False
+    why = info["why"]
+    if "re-read tree cannot be written: KeyError" in why:
+        return True                                   # the requested main variant key (the id) no longer exists
+    if "differs in <" in why:
+        where = why.split("differs in <")[1].split(">")[0].split(",")
+        return all(w in ("general/variant", "general/variants", "general/packagedir", "general/repository") for w in where)
+    return False
+
+
+@signature("treeinfo_percent_in_value")
+def _ti_percent(info, sig):
+    """C04 F-04c: a text value contains '%' (ConfigParser interpolation is applied on write and on read)."""
+    if not (info.get("kind") == "tree" and bool(info["case"].get("pct"))):
+        return False
+    why = info["why"]
+    return ("nterpolation" in why or "release." in why or "base_product." in why or ".name:" in why
+            or "differs in <general/family" in why or "differs in <general/name" in why)
